@@ -718,6 +718,10 @@ CORPUS = [
     {'kind': 'export', 'inp': {'sizes': [3], 'nc': 2, 'cs': 2, 'backend': 'flat', 'dtype': 'int16', 'pre': 'trunc',
                                'spikes': [[0, [0, 1]], [2, [1, -1]]], 'n': 3, 'w': 2, 'factor': 'fh',
                                'sdtype': 'int64', 'cache': False, 'threads': 1}},
+    # TemplateModel raw route, -1 among the queried channels, every unrequested sample of the float raw files NaN/inf
+    {'kind': 'model', 'inp': {'sizes': [4, 3], 'nc': 3, 'cs': 3, 'dtype': 'float32', 'samples': [0, 2, 2, 6], 'n': 4,
+                              'extra': 1, 'cmrot': 1, 'offset': 0, 'tdtype': 'uint64', 'raw': True, 'store': None,
+                              'q_ids': [3, 0, 1], 'q_ch': [1, -1, 0], 'qkind': 'list', 'poison': 'mix'}},
     # TemplateModel: the store files of the dataset directory are written twice (fixed names), the second time with
     # another unit factor: save_spikes_subset_waveforms called again / export over a complete same-shape file
     {'kind': 'model', 'inp': {'sizes': [4, 3], 'nc': 3, 'cs': 3, 'dtype': 'int16', 'samples': [0, 2, 2, 6], 'n': 4,
@@ -740,8 +744,12 @@ def generate(tier, rng):
         if c['kind'] in ('extract', 'export', 'store', 'exportu'):
             c['inp'] = dict(c['inp'])
             _stage6_axes(c, j)
-        elif c['kind'] == 'model' and c['inp'].get('store') and j % 3 == 1:
-            c['inp'] = dict(c['inp'], store=dict(c['inp']['store'], pre=_rot(['prev', 'same7'], j // 3)))
+        elif c['kind'] == 'model':
+            st = c['inp'].get('store')
+            if st and j % 3 == 1:
+                c['inp'] = dict(c['inp'], store=dict(st, pre=_rot(['prev', 'same7'], j // 3)))
+            if j % 3 == 2 and not (st and st['via'] == 'save'):
+                c['inp'] = dict(c['inp'], poison=_rot(POISONS, j // 3))
     return cases
 
 
@@ -1429,8 +1437,7 @@ def dist(case, obs):
             out += ['files.given_in_sorted_name_order=%s' % _lex_sorted(i.get('names'), len(i['sizes']), 'raw%d.dat' if k == 'model' else 'f%d.bin'),
                     'files.paths_as=' + (i.get('pkind') or 'path')]
     out.append('channels=%s' % ('1-4' if i['nc'] <= 4 else '5-64' if i['nc'] <= 64 else '65+'))
-    if k != 'model':
-        out.append('unrequested_samples=%s' % (i.get('poison') or 'ordinary'))
+    out.append('unrequested_samples=%s' % (i.get('poison') or 'ordinary'))
     if k in ('export', 'store', 'exportu'):
         out.append('file_at_export_path_before=%s' % (i.get('pre') or 'none'))
     if k == 'model' and i.get('store'):
@@ -1508,6 +1515,8 @@ def _shrink_model(case):
     nr = sum(i['sizes'])
     if st and st.get('pre'):
         yield mk(store={key: v for key, v in st.items() if key != 'pre'})
+    if i.get('poison'):
+        yield {'kind': 'model', 'inp': {key: v for key, v in i.items() if key != 'poison'}}
     for d in range(len(i['q_ids'])):
         if len(i['q_ids']) > 1:
             yield mk(q_ids=i['q_ids'][:d] + i['q_ids'][d + 1:])
